@@ -380,6 +380,36 @@ def rule_regorder(fx, out):
                         'the overloads are registered for %s: the float overload is registered last, is tried first and accepts a Python float - all-scalar calls then compute in single precision, unlike the array forms and the library' % tys, e['loc']))
     return n
 
+def rule_strcmp(fx, out):
+    """R20.same (string comparisons): StringArray ==/!= with a scalar string compares table indices when the string is interned and
+    otherwise fills the result with the constant the element-wise comparison would give - 0 for ==, 1 for != (a result left at
+    its zero initialisation is right for == only)"""
+    n = 0; seen = set()
+    for f in fx.fns:
+        nm = f.name.split('::')[-1]
+        if nm not in ('operator==', 'operator!=') or 'StringArray' not in f.key or f.key in seen: continue
+        if len(f['params']) != 2 or 'StringArrayT' not in f['params'][0]['type'] or 'StringArrayT' in f['params'][1]['type']: continue
+        seen.add(f.key); n += 1
+        op = nm[-2:]
+        ifs = [t_.get('shape', '') for t_ in f['top'] if t_['cls'] == 'IfStmt']
+        oid = 'strcmp:StringArray %s scalar' % op
+        if len(ifs) != 1:
+            out.append(('R20.same', oid, VIOLATED, 'expected one test whether the string is interned, found %d conditionals' % len(ifs), f['loc'])); continue
+        sh = ifs[0].replace('{', '').replace('}', '')
+        m = re.fullmatch(r'I\(M\(hasString,D\(\w+\),P1\),(?:V\(\w+\);)?L\(i0,B\(=,B\(\[\],D\((\w+)\),i0\),B\((==|!=),B\(\[\],P0,i0\),D\(\w+\)\)\)\)(?:,L\(i0,B\(=,B\(\[\],D\(\1\),i0\),I\((\d+)\)\)\))?\)', sh)
+        if not m:
+            out.append(('R20.same', oid, VIOLATED, 'the comparison has the structure %s; expected: interned -> r[i] = (a[i] %s index), otherwise r[i] = %d' % (sh[:160], op, 1 if op == '!=' else 0), f['loc'])); continue
+        want = 1 if op == '!=' else 0
+        if m.group(2) != op:
+            out.append(('R20.same', oid, VIOLATED, 'operator%s compares the indices with %s' % (op, m.group(2)), f['loc']))
+        elif m.group(3) is None and want != 0:
+            out.append(('R20.same', oid, VIOLATED, 'when the string is not in the table the result is left at its zero initialisation; no element equals an absent string, so != has to give 1 for every element', f['loc']))
+        elif m.group(3) is not None and int(m.group(3)) != want:
+            out.append(('R20.same', oid, VIOLATED, 'when the string is not in the table every element is set to %s, the element-wise %s gives %d' % (m.group(3), op, want), f['loc']))
+        else:
+            out.append(('R20.same', oid, HOLDS, 'interned: index comparison; absent: constant %d' % want, f['loc']))
+    return n
+
 def rule_shared(fx, out):
     """R20.shared: nothing reachable from a Task::execute override writes an object with static storage duration (a global,
     a static member, a function-local static): sub-ranges run concurrently on worker threads, so such a write is a data race
@@ -564,7 +594,7 @@ def rule_unmasked(fx, out):
                         'on the branch %s the task %s indexes the argument with the position in the masked view; the argument has the unmasked length, so element k must be taken at raw_ptr_index(k)' % (C, e['cls']), e['loc']))
     return n
 
-RULES = [('range', rule_range_index), ('len', rule_len), ('wr', rule_wr), ('gil', rule_gil), ('shared', rule_shared), ('taskmembers', rule_taskmembers), ('regorder', rule_regorder), ('ops', rule_ops), ('loops', rule_loops), ('unmasked', rule_unmasked)]
+RULES = [('range', rule_range_index), ('len', rule_len), ('wr', rule_wr), ('gil', rule_gil), ('shared', rule_shared), ('taskmembers', rule_taskmembers), ('regorder', rule_regorder), ('strcmp', rule_strcmp), ('ops', rule_ops), ('loops', rule_loops), ('unmasked', rule_unmasked)]
 
 def main(rep, ws, tier):
     repo = build.REPO
@@ -586,6 +616,7 @@ def main(rep, ws, tier):
     rep.floor('dispatchTask sites + length helpers', counts['len'], 60)
     rep.floor('vectorised apply functions', counts['wr'], 8)
     rep.floor('GIL obligations', counts['gil'], 40)
+    rep.floor('StringArray scalar comparisons', counts['strcmp'], 2)
     rep.floor('float/double registration lists', counts['regorder'], 1)
     rep.floor('task members initialised from constructor arguments', counts['taskmembers'], 60)
     rep.floor('execute overrides and element functors checked for shared static state', counts['shared'], 100)
